@@ -108,13 +108,18 @@ func formatNumberUnitLong[T NumberType](amount T, unit Unit, displayZero bool) s
 	case float64:
 		formatString = "%f"
 	}
+	formatted := fmt.Sprintf(formatString, amount)
+	if strings.Contains(formatted, ".") {
+		// As in the short form: "1.000000minute" cannot be parsed back, only the base unit may carry a fraction.
+		formatted = strings.TrimRight(strings.TrimRight(formatted, "0"), ".")
+	}
 	switch {
 	case amount == 1 || amount == -1:
-		return fmt.Sprintf(formatString, amount) + unit.NameLongSingular()
+		return formatted + unit.NameLongSingular()
 	case amount != 0:
-		return fmt.Sprintf(formatString, amount) + unit.NameLongPlural()
+		return formatted + unit.NameLongPlural()
 	case displayZero:
-		return fmt.Sprintf(formatString, amount) + unit.NameLongPlural()
+		return formatted + unit.NameLongPlural()
 	default:
 		return ""
 	}
